@@ -1,7 +1,9 @@
 pub mod c01;
 pub mod c02;
 pub mod c03;
+pub mod c05;
 pub mod c10;
+pub mod c11;
 pub mod c18;
 pub mod c20;
 pub mod gdscommon;
@@ -12,7 +14,7 @@ use crate::rng::{Digest, Tape};
 use crate::simio::Io;
 
 pub fn all() -> Vec<Box<dyn Check>> {
-    vec![Box::new(c01::C01), Box::new(c02::C02), Box::new(c03::C03), Box::new(c10::C10), Box::new(c18::C18), Box::new(c20::C20)]
+    vec![Box::new(c01::C01), Box::new(c02::C02), Box::new(c03::C03), Box::new(c05::C05), Box::new(c10::C10), Box::new(c11::C11), Box::new(c18::C18), Box::new(c20::C20)]
 }
 pub fn by_id(id: &str) -> Option<Box<dyn Check>> {
     all().into_iter().find(|c| c.id() == id)
